@@ -331,7 +331,11 @@ class C02(PropertyCheck):
                   "are r, return the branch of r; run_statistics returns, in product order, exactly the surviving branches, "
                   "each with a list of its own holding the record's writes applied to the initial bits; the probabilities of "
                   "all records and of the surviving ones sum to one given only that a measurement splits the weight, which is "
-                  "proved for projectors on C-vectors of any register size (born_split); density-matrix mode equals the "
+                  "proved for projectors on C-vectors of any register size (born_split); for the ideal backend with "
+                  "measurement_statistics' normalisation and the tolerance pruning the accumulated probability of every "
+                  "branch is ||psi_r||^2 of the unnormalised projector chain and the state is psi_r/||psi_r|| "
+                  "(branch_prob, threshold hypothesis explicit), whence the sum to one without any splitting "
+                  "hypothesis (probs_sum_one_born); density-matrix mode equals the "
                   "probability-weighted mixture for circuits without feed-forward (partial, hypothesis explicit). The model "
                   "is tied to the code on every run by a correspondence on an exact integer-amplitude stream (records, bits, "
                   "list identities, executed operations compared exactly; probabilities exactly on the 0/1 stream, 1e-9 "
